@@ -50,12 +50,17 @@ def verify_one(arg):
                 "obligations": [], "paths": 0, "crash": True}
 
 
+ASSUMED = []
+
+
 def list_contracts(path):
     from pyvc import spec as S
     from pyvc.verify import load_contract_module
     S.REG.clear()
     load_contract_module(os.path.join(ROOT, path))
-    out = [(k, S.REG.contracts[k].prop) for k in S.REG.order]
+    # an ASSUMED contract (options={"assumed": ...}) is used at call sites but not verified: it is listed among the assumptions instead
+    out = [(k, S.REG.contracts[k].prop) for k in S.REG.order if not S.REG.contracts[k].options.get("assumed")]
+    ASSUMED.extend(f"{S.REG.contracts[k].target}: {S.REG.contracts[k].options['assumed']}" for k in S.REG.order if S.REG.contracts[k].options.get("assumed"))
     for p_ in sorted({l["prop"] for l in S.REG.lemmas}):
         out.append(("@lemmas:" + p_, p_))
     return out
@@ -356,7 +361,7 @@ def main(argv=None):
         "exhaustive": False,
     }
     ev = {"property_id": pid, "tier": tier, "seed": seed, "level": ev_level, "coverage": cov,
-          "assumptions": COMMON_ASSUMPTIONS + P.get("assumptions", []), "wall_s": round(wall, 2), "violations": len(violations)}
+          "assumptions": COMMON_ASSUMPTIONS + P.get("assumptions", []) + [f"ASSUMED CONTRACT (used at call sites, not verified): {a}" for a in sorted(set(ASSUMED))], "wall_s": round(wall, 2), "violations": len(violations)}
     evdir = os.environ.get("VERIF_EVIDENCE_DIR") or os.path.join(ROOT, "evidence")    # experiments on changed trees write elsewhere
     os.makedirs(evdir, exist_ok=True)
     with open(os.path.join(evdir, f"{pid}.json"), "w") as f:
